@@ -623,6 +623,7 @@ def _directed(rng, tl, d):
         [[0], [31, 5, 258], [7], [31, 4, 77], [7], [30, 5, 101, 0], [7]],     # the next packet of a stream: counters bumped
         [[27, 1], [7], [8], [27, 2], [7], [10, 5], [7], [27, 3], [31, 5, 9], [7]],
         [[22] + pc.rbytes(rng, tl), [7], [22] + pc.rbytes(rng, tl + 1), [3] + d, [7]],
+        [[3] + d, [22] + pc.rbytes(rng, tl + 2), [9] + d, [8], [0, 1], [22], [3] + d, [7]],   # data, timestamp, data again
         [[23, 0, 2048, 0, n, 1, 3, 0], [8], [0]],
     ]
 
@@ -655,12 +656,10 @@ def hardening_streams(tier, rng):
         cases.append((605, a))
         if n in NEAR_256 or n % 64 in (0, 1, 63) or big:
             pkt = _layout_fast(*a[0], a[1], a[2])
-            cases.append((602, [pkt + pc.rbytes(rng, rng.choice([0, 1, 2, 255])), [tl]]))
+            cases.append((602, [pkt + pc.rbytes(rng, rng.choice([0, 1, 2, 255, 1000])), [tl]]))
             cases.append((603, [pkt, [tl]])); cases.append((611, [pkt, [tl]]))
             cases.append((604, a))
-    for tl in range(0, (2100 if big else 1100) + 1, 1 if big else 1):
-        if not big and not (tl < 300 or tl in NEAR_256 or tl % 16 == 0):
-            continue
+    for tl in range(0, (2100 if big else 1100) + 1):
         f = pc.rand_tm_args(rng, 1)[0]
         a = [f, pc.rbytes(rng, tl) if tl % 5 else rng.choice(PATTERNS)(tl), pc.rbytes(rng, rng.choice([0, 1, 2, 9]))]
         cases.append((605, a))
@@ -674,6 +673,8 @@ def hardening_streams(tier, rng):
         cases.append((605, a))
         if big or n != 0:
             cases.append((604, a)); cases.append((603, [_layout_fast(*a[0], a[1], a[2]), [tl]]))
+    pkt = _layout_fast(3, 25, 1, 1, 1, 0, 0, 0, pc.rbytes(rng, 7), pc.rbytes(rng, 20))
+    cases.append((602, [pkt + pc.rbytes(rng, 70000), [7]])); cases.append((603, [pkt + pkt * 40, [7]]))
     for (tl, n) in ((7, 65521), (0, 65528), (65528, 0), (32768, 32760)):
         cases.append((601, [[3, 25, 1, 1, 1, 0, 0, 0], [0] * tl, [0] * n])); cases.append((604, [[3, 25, 1, 1, 1, 0, 0, 0], [0] * tl, [0] * n]))
     yield "size_sweep_pack_unpack", "exact", cases
@@ -704,7 +705,7 @@ def hardening_streams(tier, rng):
                 base = _hist_params(rng, path=path, kind=kind, n=rng.randrange(0, 9), tl=rng.choice([0, 7, 7, 3]))
                 muts = _all_mutations(rng, len(base[1]), len(base[2]))
                 for m in muts + [None]:
-                    for v in ([7], [0], [1], [26]):
+                    for v in ([7], [0, 1], [1], [26]):           # [0, 1]: pack through the Service17Tm wrapper where there is one
                         ops = [list(x) for x in pr] + ([list(m)] if m is not None else []) + [v, [8]]
                         cases.append((620, base + ops))
                 for m in muts:
@@ -740,7 +741,7 @@ def hardening_streams(tier, rng):
             d = pc.rbytes(rng, n)
             cases.append((620, base + [[7], [k] + d, [7], [8], [0], [10, 1, 2], [7], [8]]))
     for n in sizes:
-        if n >= 250:
+        if n >= 250 and (big or abs(((n + 128) % 256) - 128) <= 2 or n == 1100):
             cases.append((620, _hist_params(rng, path=rng.choice([3, 5]), kind=1, n=n, tl=rng.choice([0, 7])) + [[8], [7], [8]]))
             cases.append((620, _hist_params(rng, path=rng.choice([0, 2, 4]), kind=1, n=rng.choice([0, n]), tl=rng.choice([7, n])) + [[7], [8], [7]]))
     for n in ((65510, 65518) if big else (65518,)):
